@@ -123,6 +123,7 @@ func (r *runner) corruptPhase(s *session) {
 		if how == 1 {
 			nb = old ^ byte(1+val%255)
 		}
+		r.lastCor = [2]byte{old, nb}
 		root := r.newDir("cor")
 		defer os.RemoveAll(root)
 		walDir, snapDir := filepath.Join(root, "wal"), filepath.Join(root, "snap")
@@ -206,12 +207,19 @@ func (r *runner) corruptPhase(s *session) {
 		check := func(rec *recovered, start uint64, what string) bool {
 			k := matchPrefix(m.W, len(m.W), start, m.meta, rec)
 			if k < 0 {
+				if _, kl := matchLiteral(m.W, len(m.W), m.cuts, start, rec); kl >= 0 {
+					// not the corruption: ReadAll's own treatment of entries
+					// overwritten from below the snapshot index
+					r.probe("corruption-run-hit-overwritten-entry-finding", 1)
+					return true
+				}
 				sig := "C16/corruption/modified-data-returned"
 				if t.sub == "wal" && !inRecordData(t.data, off) {
 					// the changed byte is part of a record's framing (length
 					// word, field tags, record type, stored crc, padding), which
 					// the WAL's rolling CRC does not cover
 					sig = "C16/corruption/record-header-not-covered-by-crc"
+					r.probe(fmt.Sprintf("header-flip-returned-as-valid:%#02x->%#02x", old, nb), 1)
 				}
 				r.fail(sig, "%s: %s returned without error %s (snapshot %d), which is the fold of no prefix of the %d records written; full fold is %s",
 					where, what, describe(rec), start, len(m.W), describeFold(m.W, len(m.W), start))
@@ -320,11 +328,9 @@ func (r *runner) corruptPhase(s *session) {
 		return r.ch.draw(span)
 	}
 
-	if r.ch.replay || r.mode != modeEnum || total > 64*1024 {
+	exhaustive := !r.ch.replay && (r.mode == modeSearch || (r.mode == modeEnum && total <= 64*1024))
+	if !exhaustive {
 		n := r.b.Cfg.NCorrupt
-		if r.mode == modeSearch {
-			n *= 4
-		}
 		for i := 0; ; i++ {
 			var more bool
 			if r.ch.replay {
@@ -345,6 +351,9 @@ func (r *runner) corruptPhase(s *session) {
 					}
 				}
 				ti = ti % ns
+				if r.ch.draw(2) == 1 {
+					ti = ns - 1 // the newest snapshot file: the one a fallback is about
+				}
 			}
 			off := pickOffset(&targets[ti])
 			one(ti, off, r.ch.draw(2), r.ch.draw(255))
@@ -358,23 +367,57 @@ func (r *runner) corruptPhase(s *session) {
 			end = len(t.data)
 		}
 		for off := 0; off < end; off++ {
-			if r.failed() {
-				return
+			// one random change everywhere; in addition every single-bit flip
+			// of the bytes no checksum covers (WAL framing: length words, field
+			// tags, record type, padding) and of every snapshot-file byte
+			variants := 1
+			if r.mode == modeSearch {
+				// the minimiser looks for the same kind of change only
+				if r.searchCor == nil || t.data[off] != r.searchCor[0] {
+					continue
+				}
+				r.ch.forceChance(true)
+				r.ch.force(len(targets), ti)
+				if targets[0].sub == "snap" {
+					r.ch.force(4, 0)
+				}
+				if isWal(t.name) {
+					r.ch.force(16, 0)
+				}
+				span := t.written + 64
+				if span > len(t.data) {
+					span = len(t.data)
+				}
+				r.ch.force(span, off)
+				one(ti, off, r.ch.force(2, 1), r.ch.force(255, int(r.searchCor[0]^r.searchCor[1])-1))
+				continue
 			}
-			r.ch.forceChance(true)
-			r.ch.force(len(targets), ti)
-			if targets[0].sub == "snap" {
-				r.ch.force(4, 0)
+			if (t.sub == "snap" && off < 12) || (t.sub == "wal" && !inRecordData(t.data, off)) {
+				variants = 9
 			}
-			if isWal(t.name) {
-				r.ch.force(16, 0)
+			for v := 0; v < variants; v++ {
+				if r.failed() {
+					return
+				}
+				r.ch.forceChance(true)
+				r.ch.force(len(targets), ti)
+				if targets[0].sub == "snap" {
+					r.ch.force(4, 0)
+				}
+				if isWal(t.name) {
+					r.ch.force(16, 0)
+				}
+				span := t.written + 64
+				if span > len(t.data) {
+					span = len(t.data)
+				}
+				r.ch.force(span, off)
+				if v == 0 {
+					one(ti, off, r.ch.draw(2), r.ch.draw(255))
+				} else {
+					one(ti, off, r.ch.force(2, 0), r.ch.force(255, v-1))
+				}
 			}
-			span := t.written + 64
-			if span > len(t.data) {
-				span = len(t.data)
-			}
-			r.ch.force(span, off)
-			one(ti, off, r.ch.draw(2), r.ch.draw(255))
 		}
 	}
 	r.ch.forceChance(false)
